@@ -216,7 +216,7 @@ _PYOP = {"lt": "<", "le": "<=", "eq": "==", "ne": "!=", "is": "is", "isnot": "is
 _PYFUNC = {("builtin", "max"): "max", ("builtin", "min"): "min", ("builtin", "abs"): "abs", ("builtin", "int"): "int",
            ("builtin", "float"): "float", ("ext", "math.floor"): "_floor", ("ext", "math.ceil"): "_ceil",
            ("ext", "numpy.floor"): "_floor", ("ext", "numpy.ceil"): "_ceil", ("builtin", "bool"): "bool",
-           ("builtin", "round"): "round"}
+           ("builtin", "round"): "round", ("builtin", "sorted"): "sorted"}
 
 
 def to_py(t, names: Dict[tuple, str]) -> str:
@@ -253,7 +253,7 @@ def compile_term(t, names: Dict[tuple, str]):
     src = to_py(t, names)
     code = compile(src, "<formula>", "eval")
     glb = {"__builtins__": {}, "max": max, "min": min, "abs": abs, "int": int, "float": float, "bool": bool,
-           "round": round, "_floor": math.floor, "_ceil": math.ceil}
+           "round": round, "sorted": sorted, "_floor": math.floor, "_ceil": math.ceil}
     return (lambda env: eval(code, glb, env)), src  # noqa: S307 - evaluates the analyser's own formula text
 
 
